@@ -257,7 +257,12 @@ impl IppAttributes {
         // put the required attributes first as described in section 4.1.4 of RFC8011
         buffer.put_u8(DelimiterTag::OperationAttributes as u8);
 
-        if let Some(group) = self.groups_of(DelimiterTag::OperationAttributes).next() {
+        let first_operation_group = self
+            .groups()
+            .iter()
+            .position(|group| group.tag() == DelimiterTag::OperationAttributes);
+
+        if let Some(group) = first_operation_group.map(|idx| &self.groups()[idx]) {
             for hdr in &IppAttribute::HEADER_ATTRS {
                 if let Some(attr) = group.attributes().get(*hdr) {
                     buffer.put(attr.to_bytes());
@@ -272,11 +277,12 @@ impl IppAttributes {
             }
         }
 
-        // now the rest
-        for group in self
+        // now the rest, including any further operation attribute groups
+        for (_, group) in self
             .groups()
             .iter()
-            .filter(|group| group.tag() != DelimiterTag::OperationAttributes)
+            .enumerate()
+            .filter(|(idx, _)| Some(*idx) != first_operation_group)
         {
             buffer.put_u8(group.tag() as u8);
 
